@@ -5,14 +5,14 @@
 //     re-parse when needsMoreSpace() was reported and space has been freed, otherwise append the next input segment.
 // Two kinds of entries:
 //  (a) c24_rt_*: a reference ENCODER in the harness builds a valid chunked encoding of a symbolic body (symbolic body
-//      bytes, symbolic hex-digit case, symbolic extension/trailer bytes constrained to their RFC 9112 classes; chunk
-//      cuts, leading zeros, extension shape, output-space limit are case-split). For every split point (thorough: every
-//      pair), and for byte-by-byte delivery: decoded == body, consumed == encoded length, every strict prefix only
-//      ever yields "need more data" (no exception, no early completion).
+//      bytes, symbolic extension/trailer bytes constrained to their RFC 9112 classes; chunk cuts, leading zeros, hex-digit
+//      case, SP/HTAB, extension shape, output-space limit are case-split). For one-shot delivery, every split point
+//      (thorough: every pair for short inputs) and byte-by-byte delivery: decoded == body, consumed == encoded length;
+//      every strict prefix only ever yields "need more data" (no exception, no early completion).
 //  (b) c24_g_* / c24_any: a concrete skeleton with fully symbolic (unconstrained) bytes at the framing positions; a
 //      reference DECODER in the harness (RFC 9112 section 7.1 grammar + Squid's documented tolerances, three outcomes
 //      DONE / MORE / BAD) is the oracle: the parser must complete, ask for more data, or throw exactly when the
-//      reference says so, with the same decoded bytes and consumed length.
+//      reference says so, with the same decoded bytes and consumed length, under every segmentation as in (a).
 #include "http1.h"
 #include "http/one/TeChunkedParser.h"
 #include "MemBuf.h"
@@ -24,7 +24,6 @@ struct Outcome {
     int st;
     unsigned consumed, outLen;
     uint8_t out[MAXOUT];
-    bool wspAfterExt; // reference decoder only: see the KNOWN-FINDING candidate below
 };
 
 // ---- the caller's loop. cuts[0..ncuts) are the (non-decreasing) ends of the delivered segments, cuts[ncuts-1] == n.
@@ -71,7 +70,7 @@ static Outcome drive(const uint8_t *in, const unsigned n, const uint8_t *cuts, c
 
 // runs check(cuts, ncuts) for the one-shot delivery, every split point (thorough: every pair of split points of inputs
 // of at most PAIRMAX bytes) and byte-by-byte delivery
-#define PAIRMAX 12
+#define PAIRMAX 11
 template <class F> static void forAllSegmentations(const unsigned n, F check)
 {
     uint8_t cuts[MAXIN];
@@ -115,7 +114,7 @@ static inline int hexVal(uint8_t c) { return rng(c, '0', '9') ? c - '0' : rng(c,
 static Outcome reference(const uint8_t *x, const unsigned n, const bool relaxed)
 {
     Outcome r;
-    r.st = MORE; r.consumed = 0; r.outLen = 0; r.wspAfterExt = false;
+    r.st = MORE; r.consumed = 0; r.outLen = 0;
     unsigned p = 0;
     for (;;) {
         // chunk-size
@@ -137,10 +136,8 @@ static Outcome reference(const uint8_t *x, const unsigned n, const bool relaxed)
             while (q < n && isBws(x[q], relaxed)) ++q;
             NEED(q == n);
             if (x[q] != ';') { // BWS is only allowed in front of ";"
-                // KNOWN-FINDING candidate: SP/HTAB between a complete chunk-ext and the CRLF (or the next BWS-led item) is
-                // rejected by the one-shot parse but accepted when a segment ends inside that whitespace (see grammar()).
-                // The reference notes the class and continues the way the segmented parse does (skip the SP/HTAB run).
-                if (nExt && isWsp(x[p])) { r.wspAfterExt = true; while (p < n && isWsp(x[p])) ++p; continue; }
+                // (SP/HTAB between a complete chunk-ext and the CRLF is malformed. It used to be accepted when a segment
+                // ended inside that whitespace; repaired in /repo by the 'fix: chunk-ext followed by whitespace ...' commit.)
                 break;
             }
             ++q;
@@ -229,11 +226,6 @@ static void grammar(const uint8_t *in, const unsigned n, const unsigned cap, con
     const int relaxed = modes == cmDefault ? 1 : relaxedSetting(modes == cmAll);
     http1Config(relaxed, 65536, 65536);
     const Outcome want = reference(in, n, relaxed != 0);
-    // KNOWN-FINDING candidate: "1;a=A \t\r\n..." (SP/HTAB after a complete chunk-ext, then CRLF): the one-shot parse throws
-    // ("cannot skip CRLF after [chunk-ext]"), but if a segment ends inside that whitespace parseChunkExtensions() has
-    // already committed buf_ past the extension, and the retry's ParseStrictBws() skips the whitespace: accepted.
-    // Exactly the inputs whose outcome depends on the segmentation in this way are excluded here.
-    vf_assume(!(want.wspAfterExt && want.st != BAD));
     vf_observe("ref", want.st); vf_observe("refConsumed", want.consumed); vf_observe("refOut", want.outLen);
     bool first = true;
     forAllSegmentations(n, [&](const uint8_t *cuts, unsigned ncuts) {
@@ -376,7 +368,7 @@ static void roundTrip(const Enc &e, const unsigned validLen, const uint8_t *body
 }
 
 #ifdef VF_THOROUGH
-#define NBODY 5
+#define NBODY 4
 #else
 #define NBODY 3
 #endif
